@@ -257,9 +257,17 @@ func (g *gen) faultStmt() ([]zn.Stmt, zn.Stmt, string) {
 		// being executed is the loop, not the last statement of its body
 		g.labels["fault-in-loop-condition-later-pass"] = true
 		body := []zn.Stmt{&zn.ExprStmt{E: &zn.Assign{Target: v(cnt), E: &zn.Bin{Op: "+", L: v(cnt), R: num(1)}}}}
-		if g.pick(2, "wcall") == 0 {
+		switch g.pick(4, "wcall") {
+		case 0:
 			body = append(body, show(&zn.Call{Name: "完成", Args: []zn.Expr{v(cnt)}}))
-		} else {
+		case 1:
+			// the pass ends through 继续循环 (the statements below it are skipped)
+			g.labels["loop-pass-ended-by-continue"] = true
+			body = append(body, &zn.If{Conds: []zn.Expr{&zn.BoolLit{V: true}}, Blocks: [][]zn.Stmt{{show(v(cnt)), &zn.Continue{}}}}, show(&zn.Str{V: "跳过"}))
+		case 2:
+			g.labels["loop-pass-ended-by-continue"] = true
+			body = append(body, show(v(cnt)), &zn.Continue{})
+		default:
 			body = append(body, show(v(cnt)))
 		}
 		return []zn.Stmt{&zn.Let{Names: []string{cnt}, E: num(0)}}, &zn.While{Cond: div(&zn.Bin{Op: "-", L: num(2), R: v(cnt)}), Body: body}, "division by zero in a 每当 condition (third test)"
